@@ -93,6 +93,7 @@ def run_traced(spec, fault=None, gp_faults=None, predict_faults=None, max_filt_r
             ev.append(("CALL", e))
             raise
         e["x"] = _vec(aux["calls"]["xs"][k])
+        e["ginv"] = _vec(b.var_transf.ginv(np.atleast_2d(np.asarray(x, dtype=float))))
         e["ncalls_target"] = aux["calls"]["n"] - k
         e["ret"] = [_f(r[0]), _f(r[1]), None if r[2] is None else int(r[2])]
         e["ret_kind"] = [type(r[0]).__name__, type(r[1]).__name__]
@@ -113,6 +114,7 @@ def run_traced(spec, fault=None, gp_faults=None, predict_faults=None, max_filt_r
             e = {"site": state["phase"][-1], "proj": bool(proj), "n_in": int(Uin.shape[0]), "n_out": int(len(out)),
                  "lo": _vec(lbb), "hi": _vec(ubb), "tol": float(tol_mesh),
                  "logn": int(function_logger.X_max_idx) + 1, "has_cons": non_box_cons is not None,
+                 "sms": float(state["bads"].optim_state["search_mesh_size"]) if state["bads"] is not None else None,
                  "nan_in": bool(np.any(np.isnan(Uin)))}
             if Uin.shape[0] <= max_filt_rows:
                 e["U"] = _rows(Uin) if Uin.size else []
@@ -382,6 +384,7 @@ def run_traced(spec, fault=None, gp_faults=None, predict_faults=None, max_filt_r
             tr["final"] = {"target_calls": aux["calls"]["n"], "xs": [_vec(x) for x in aux["calls"]["xs"]],
                            "u": _vec(b.u) if hasattr(b, "u") else None,
                            "x": _vec(b.x) if hasattr(b, "x") else None,
+                           "x_ginv": _vec(b.var_transf.ginv(np.atleast_2d(np.asarray(b.u, dtype=float)))) if hasattr(b, "x") else None,
                            "fval": _f(getattr(b, "fval", None)), "fsd": _f(getattr(b, "fsd", None)), "yval": _f(getattr(b, "yval", None)),
                            "msg": b.optim_state.get("termination_msg"), "iter": int(b.optim_state["iter"]),
                            "msi": int(b.mesh_size_integer), "mesh_size": float(b.mesh_size),
